@@ -471,40 +471,40 @@ func c04Main(t *testing.T, rep *kit.Report) {
 		fmt.Sscanf(b, "%d", &bound)
 	}
 	only := kit.Getenv("VERIF_SCENARIO", "")
-	// Work distribution: worker w explores scenario w mod L; the workers sharing a scenario split its
-	// level-1 subtrees (first deviation from the default schedule) round-robin.
-	L := len(c04Scenarios)
-	for i, sc := range c04Scenarios {
-		share, nshare := 0, 1
-		if only != "" {
-			if sc.Name != only {
-				continue
-			}
-			share, nshare = kit.Shard(), kit.NShard()
-		} else {
-			if kit.Shard()%L != i {
-				continue
-			}
-			share = kit.Shard() / L
-			nshare = 0
-			for w := 0; w < kit.NShard(); w++ {
-				if w%L == i {
-					nshare++
-				}
-			}
+	// Work distribution: every worker explores every scenario; the level-1 subtrees (first deviation from the
+	// default schedule) of each scenario are dealt round-robin to the workers. Bounds are iterated over all
+	// scenarios (all at bound 0, then all at bound 1, ...) and at the last bound every scenario gets an equal
+	// share of the remaining time, so that a cut run has looked at every scenario.
+	var scs []c04Scenario
+	for _, sc := range c04Scenarios {
+		if only == "" || sc.Name == only {
+			scs = append(scs, sc)
 		}
-		c04Explore(rep, sc, dir, bound, share, nshare)
-		if rep.NViolations > 0 {
-			rep.Cut("stopped at the first violation of this worker (the instance may be poisoned)")
-			return
+	}
+	exps := make([]*sched.Explorer, len(scs))
+	for i := range scs {
+		exps[i] = &sched.Explorer{Share: kit.Shard(), NShare: kit.NShard(), TimeChoices: 1}
+	}
+	for b := 0; b <= bound; b++ {
+		for i, sc := range scs {
+			var until float64
+			if dl := rep.DeadlineSeconds(); dl > 0 {
+				left := float64(dl) - rep.RealSeconds()
+				until = rep.RealSeconds() + left/float64(len(scs)-i)
+			}
+			c04Explore(rep, sc, dir, exps[i], b, until)
+			if rep.NViolations > 0 {
+				rep.Cut("stopped at the first violation of this worker (the instance may be poisoned)")
+				return
+			}
 		}
 	}
 }
 
-func c04Explore(rep *kit.Report, sc c04Scenario, dir string, bound, share, nshare int) {
-	e := &sched.Explorer{Stop: rep.Expired, Share: share, NShare: nshare, TimeChoices: 1}
-	for b := 0; b <= bound; b++ {
-		e.Bound, e.FilterShared, e.Executions, e.MaxExec = b, b >= 2, 0, 0
+func c04Explore(rep *kit.Report, sc c04Scenario, dir string, e *sched.Explorer, b int, until float64) {
+	{
+		e.Stop = func() bool { return rep.Expired() || (until > 0 && rep.RealSeconds() > until) }
+		e.Bound, e.FilterShared, e.Executions, e.MaxExec, e.Capped = b, b >= 2, 0, 0, false
 		first := true
 		nth := 0
 		stop := false
@@ -556,5 +556,5 @@ func c04Explore(rep *kit.Report, sc c04Scenario, dir string, bound, share, nshar
 			return
 		}
 	}
-	rep.Count("scenarios_completed", 1)
+	rep.Count(fmt.Sprintf("scenario_bounds_completed_%s", sc.Name), 1)
 }
